@@ -195,6 +195,8 @@ pub fn run(args: &Args, out: &mut Out) {
         cfg.max_rounds = 100 + rng.below(40) as usize;
         cfg.initial_sequence = if i % 2 == 0 { 64511 - rng.below(8) as u16 } else { cfg.initial_sequence.min(64000) };
         if i % 2 == 1 { cfg.proto = Protocol::Udp; cfg.strategy = MultipathStrategy::Dublin; cfg.portdir = PortDirection::new_fixed_src(5000); cfg.target = rand_addr(&mut rng, true); }
+        // (an IPv4-mapped IPv6 target is an IPv6 target: same wrap of the sequence every 512)
+        if i % 4 == 3 { cfg.target = std::net::IpAddr::V6(std::net::Ipv6Addr::new(0, 0, 0, 0, 0, 0xffff, 0x0a00 | rng.below(256) as u16, 1 + rng.below(60000) as u16)); }
         let ms = 1_000_000u64;
         cfg.min_ns = 5 * ms;
         cfg.max_ns = 40 * ms;
@@ -208,6 +210,44 @@ pub fn run(args: &Args, out: &mut Out) {
         for h in &mut env.path { h.silent = false; h.every = 1; h.dup = false; h.delay_ns = 3 * ms; }
         env.read_timeout_ns = ms;
         env.iter_budget = 20_000;
+        let t0 = vclock::BASE_NS;
+        vclock::set(t0);
+        let r = exec(&cfg, Box::new(env), t0, 0);
+        let truth: Truth = deliv.borrow().iter().map(|d| d.truth).collect();
+        let orc = full_oracle(&cfg, &r, &truth, true);
+        out.case(&case_line(&cfg, &r, &truth), &r.render(), &orc);
+    }
+    // very long runs to a target one hop away, from the largest accepted initial sequence: the per-round flow port of Paris / Dublin
+    // ((initial sequence + round) mod 65535) passes 65534 and starts over at 0 after 1024 rounds - responses must still be matched there
+    let combos: Vec<(MultipathStrategy, bool, bool)> = if args.tier_thorough {
+        vec![(MultipathStrategy::Paris, false, false), (MultipathStrategy::Paris, true, false), (MultipathStrategy::Paris, false, true), (MultipathStrategy::Paris, true, true),
+             (MultipathStrategy::Dublin, false, false), (MultipathStrategy::Dublin, true, false), (MultipathStrategy::Dublin, false, true), (MultipathStrategy::Dublin, true, true)]
+    } else {
+        vec![(MultipathStrategy::Paris, false, false), (MultipathStrategy::Dublin, true, true)]
+    };
+    for (strategy, v6, fixed_dest) in combos {
+        let mut cfg = gen_cfg(&mut rng);
+        cfg.proto = Protocol::Udp;
+        cfg.strategy = strategy;
+        cfg.portdir = if fixed_dest { PortDirection::new_fixed_dest(33000) } else { PortDirection::new_fixed_src(5000) };
+        cfg.target = rand_addr(&mut rng, v6);
+        cfg.first_ttl = 1;
+        cfg.max_ttl = 4;
+        cfg.max_inflight = 24;
+        cfg.max_rounds = 1060;
+        cfg.initial_sequence = 64511;
+        let ms = 1_000_000u64;
+        cfg.min_ns = ms;
+        cfg.max_ns = 20 * ms;
+        cfg.grace_ns = ms;
+        let (mut env, deliv) = gen_env(&mut rng, &cfg, Knobs::default());
+        env.alt_path.clear();
+        env.target_answers = true;
+        env.target_dist = 1;
+        env.path.truncate(1);
+        for h in &mut env.path { h.silent = false; h.every = 1; h.dup = false; h.delay_ns = ms / 2; }
+        env.read_timeout_ns = ms;
+        env.iter_budget = 40_000;
         let t0 = vclock::BASE_NS;
         vclock::set(t0);
         let r = exec(&cfg, Box::new(env), t0, 0);
